@@ -26,6 +26,8 @@ pub fn key_pool() -> Vec<Vec<u8>> {
         b"b".to_vec(),
         b"\r\n".to_vec(),
         b"zzzzzzzzzzzzzzzzzzzzzzzzzzzzzzzzzzzzzzzzzzzzzzzzzzzzzzzzzzzzzzzz".to_vec(),
+        // a key larger than the 8 KiB write buffer (the entry header alone takes several writes)
+        (0..9000u32).map(|i| (i * 7 % 253) as u8).collect(),
     ]
 }
 
